@@ -24,6 +24,8 @@ func init() {
 
 func runC11(c *Ctx, r *Report) {
 	l := c.L
+	defer c11r14(c, r)
+	defer c11r15(c, r)
 	ec := l.Fn("fzf", "extractColor")
 	next := l.Fn("fzf", "nextAnsiEscapeSequence")
 	interp := l.Fn("fzf", "interpretCode")
